@@ -179,6 +179,23 @@ def r2_fresh_listener(ctx, it):
         n += 1
         at = f'{it.module.relpath}:{sp.path.end_node.lineno}'
         ok = isinstance(val, ast.Attribute) and val.attr == 'token' and F.constructed_class(ctx, val.value, it) is not None
+        if not ok and isinstance(val, ast.Attribute) and val.attr == 'token':
+            # <object constructed in this call>.<attr>.token: fresh when the constructor of that object creates the listener itself
+            root_ = val.value
+            while isinstance(root_, ast.Attribute):
+                root_ = root_.value
+            if isinstance(root_, ast.Call) and F.constructed_class(ctx, root_, it) is not None:
+                holder = F.constructed_class(ctx, root_, it)
+                init_ = ctx.prog.find_method(holder, '__init__')
+                attr_ = val.value.attr if isinstance(val.value, ast.Attribute) and val.value.value is root_ else None
+                made_ = [a_ for a_ in (walk_local(init_.node) if init_ is not None else []) if isinstance(a_, ast.Assign)
+                         and any(src(t_) == f'self.{attr_}' for t_ in a_.targets) and isinstance(a_.value, ast.Call)
+                         and F.constructed_class(ctx, a_.value, init_) is not None]
+                if attr_ and made_:
+                    ctx.holds('R2', at, it.qualname, f'the returned token is read from the listener that {holder.name}(...), constructed in this call, '
+                                                     f'creates in its constructor')
+                    continue
+                raise AnalysisError(f'{at}: the token is read from `{src(val.value)[:60]}`, an object constructed in this call whose listener is not followed')
         ctx.check(ok, 'R2', at, it.qualname, 'fresh-listener',
                   'the returned token is read from a listener constructed in this call',
                   f'the returned value is `{src(val)[:80]}`: the listener is not created per call')
